@@ -21,7 +21,7 @@ type c03Scen struct {
 	Preempt  int       `json:"preempt_permille"`
 }
 
-var c03RootsCurly = []string{"/a", "/{t}", "/a/b", "/a/{t}", "/b", "/", "/ab", "/{t}/b"}
+var c03RootsCurly = []string{"/a", "/{t}", "/a/b", "/a/{t}", "/b", "/", "/ab", "/{t}/b", "/a/{t}/{u}", "/{t}/{u}/c/d", "/{t}/b/{u}", "/a/b/{t}"}
 var c03RootsJSR = []string{"/a", "/b", "/a/b", "/ab", "/", "/b/a"}
 var c03Segs = []string{"a", "{v}", "b", "{v:[0-9]+}", "ab", "{v:[a-z]+}"}
 
